@@ -143,7 +143,7 @@ func init() {
 	register(&Property{
 		ID:    "C04",
 		Level: "exploration",
-		Rule: "PRNG chains of 1-8 leaf commands (out / exit-code functions vf0..vf7 / err / stdin-tagging function vtg; in half of the chains some commands carry an argument sub-shell `${err tag}` whose stderr line shows whether the arguments of a skipped command were evaluated) joined by ; newline && || and | -> pipelines, run at top level, as a function body and as a function called twice, compared with a reference interpreter of the normal run mode; " +
+		Rule: "PRNG chains of 1-8 leaf commands (out / exit-code functions vf0..vf7 and, in a third of the chains, vfm1 / vfm3 ending with a negative exit number / err / stdin-tagging function vtg; in half of the chains some commands carry an argument sub-shell `${err tag}` whose stderr line shows whether the arguments of a skipped command were evaluated) joined by ; newline && || and | -> pipelines, run at top level, as a function body and as a function called twice, compared with a reference interpreter of the normal run mode; " +
 			"a case in which a whole multi-stage pipeline is skipped by &&/|| is executed but not asserted (the statement is silent on what its later stages do); non-trivial = at least 2 operators and at least one && or ||; distinct by program text",
 		Assumptions: []string{"leaf commands out/err/return/<stdin>->set behave as documented (they are the observation channel)", "skipped multi-stage pipelines are not asserted"},
 		Check:       chainCheck("C04"),
@@ -158,8 +158,10 @@ func init() {
 				// half of the chains carry argument sub-shells with a visible side effect:
 				// a skipped command must not evaluate them either
 				chainSubEffects = i%2 == 1
+				// a third have functions ending with a negative exit number: not zero, so a failure
+				chainNegExits = i%3 == 0
 				units := genChain(r, 8, true)
-				chainSubEffects = false
+				chainSubEffects, chainNegExits = false, false
 				wrapper := []string{"plain", "function", "function-twice"}[r.Intn(3)]
 				cases = append(cases, mkChainCase(fmt.Sprintf("c04-%d", i), "normal", wrapper, units))
 			}
